@@ -109,3 +109,117 @@ func TestC10_RawProtected(t *testing.T) {
 	}
 	stats.ExhaustivePart("raw protected shapes x position x form x operation", n)
 }
+
+// Signature values that are themselves well-formed CBOR items (a byte string head followed by exactly that many
+// bytes, an array, a tagged item ...): one genuine signature in 2^16 starts with 58 3e and is 64 bytes long. The
+// verifier is handed the signature field exactly as given - not its content, not a prefix - over the reference
+// structure, by every countersignature verification entry point; and what a signer returns is stored / returned
+// exactly as returned.
+type c10SigBytesCase struct {
+	Entry string `json:"entry"` // VerifyCountersign0, Countersignature.Verify, decoded-countersignature, Countersign0, Countersignature.Sign
+	Sig   rc.Hex `json:"signature"`
+	Value bool   `json:"value,omitempty"`
+}
+
+func checkC10SigBytes(c c10SigBytesCase) error {
+	p := &cose.Sign1Message{Headers: cose.Headers{Protected: cose.ProtectedHeader{int64(1): cose.AlgorithmEdDSA}, Unprotected: cose.UnprotectedHeader{}}, Payload: []byte("payload"), Signature: []byte{1, 2, 3}}
+	var parent any = p
+	if c.Value {
+		parent = *p
+	}
+	bodyProt := []byte{0xa1, 0x01, 0x27}
+	csHdr := cose.Headers{Protected: cose.ProtectedHeader{int64(1): cose.AlgorithmEdDSA}, Unprotected: cose.UnprotectedHeader{}}
+	spyV := &bridge.SpyVerifier{Alg: cose.AlgorithmEdDSA}
+	spyS := &bridge.SpySigner{Alg: cose.AlgorithmEdDSA, Inner: func([]byte) []byte { return append([]byte{}, c.Sig...) }}
+	wantFull := refcose.CountersignStructure("CounterSignatureV2", bodyProt, bodyProt, nil, []byte("payload"), [][]byte{{1, 2, 3}})
+	wantAbbrev := refcose.CountersignStructure("CounterSignature0V2", bodyProt, nil, nil, []byte("payload"), [][]byte{{1, 2, 3}})
+	stats.Class("signature-bytes/" + c.Entry)
+	switch c.Entry {
+	case "Countersign0":
+		out, err := cose.Countersign0(refcose.NewEntropy(nil), spyS, parent, nil)
+		if err != nil || !bytes.Equal(out, c.Sig) {
+			return finding("signature-bytes-changed", "Countersign0 returns %x (err=%v) where the signer returned %x", out, err, []byte(c.Sig))
+		}
+		return nil
+	case "Countersignature.Sign":
+		cs := &cose.Countersignature{Headers: csHdr}
+		if err := cs.Sign(refcose.NewEntropy(nil), spyS, parent, nil); err != nil || !bytes.Equal(cs.Signature, c.Sig) {
+			return finding("signature-bytes-changed", "Countersignature.Sign stores %x (err=%v) where the signer returned %x", cs.Signature, err, []byte(c.Sig))
+		}
+		enc, err := cs.MarshalCBOR()
+		if err != nil {
+			return finding("signature-bytes-changed", "a countersignature holding the signature %x is not encodable: %v", []byte(c.Sig), err)
+		}
+		var back cose.Countersignature
+		if err := back.UnmarshalCBOR(enc); err != nil || !bytes.Equal(back.Signature, c.Sig) {
+			return finding("signature-bytes-changed", "signature %x comes back as %x (err=%v) from encode + decode", []byte(c.Sig), back.Signature, err)
+		}
+		return nil
+	}
+	var err error
+	want := wantFull
+	switch c.Entry {
+	case "VerifyCountersign0":
+		want = wantAbbrev
+		err = cose.VerifyCountersign0(spyV, parent, nil, append([]byte{}, c.Sig...))
+	case "Countersignature.Verify":
+		err = (&cose.Countersignature{Headers: csHdr, Signature: append([]byte{}, c.Sig...)}).Verify(spyV, parent, nil)
+	case "decoded-countersignature":
+		wire := rc.Encode(rc.Array(rc.Bytes(bodyProt), rc.Map(), rc.Bytes(c.Sig)), nil)
+		var cs cose.Countersignature
+		if derr := cs.UnmarshalCBOR(wire); derr != nil {
+			return finding("signature-bytes-changed", "a countersignature whose signature is %x is refused by the decoder: %v", []byte(c.Sig), derr)
+		}
+		err = cs.Verify(spyV, parent, nil)
+	}
+	if err != nil || spyV.NCalls() != 1 {
+		return finding("signature-bytes-changed", "%s with signature %x: err=%v, verifier invoked %d times (an accepting verifier, a non-empty signature)", c.Entry, []byte(c.Sig), err, spyV.NCalls())
+	}
+	call := spyV.Last()
+	if !bytes.Equal(call.Sig, c.Sig) {
+		return finding("signature-bytes-changed", "%s handed the verifier the signature %x where the caller gave %x", c.Entry, call.Sig, []byte(c.Sig))
+	}
+	if !bytes.Equal(call.Content, want) {
+		return finding("tbs-mismatch/signature-bytes", "%s with signature %x: structure handed to the verifier differs from the reference\n got=%x\nwant=%x", c.Entry, []byte(c.Sig), call.Content, want)
+	}
+	return nil
+}
+
+func init() { register("c10sigbytes", checkC10SigBytes) }
+
+func c10CBORLookingSignatures() [][]byte {
+	fill := func(head []byte, n int) []byte {
+		out := append([]byte{}, head...)
+		for i := 0; len(out) < n; i++ {
+			out = append(out, byte(0x11+i))
+		}
+		return out
+	}
+	return [][]byte{
+		fill([]byte{0x58, 0x3e}, 64), fill([]byte{0x58, 0x5e}, 96), fill([]byte{0x58, 0x82}, 132), fill([]byte{0x59, 0x00, 0x81}, 132), fill([]byte{0x59, 0x00, 0xfd}, 256),
+		fill([]byte{0x59, 0x00, 0x3d}, 64), fill([]byte{0x5a, 0, 0, 0, 0x3b}, 64), fill([]byte{0x78, 0x3e}, 64),
+		{0x40}, {0x41, 0x07}, {0x42, 1, 2}, {0x43, 1, 2, 3}, {0x57, 1, 2, 3, 4, 5, 6, 7, 8, 9, 10, 11, 12, 13, 14, 15, 16, 17, 18, 19, 20, 21, 22, 23},
+		{0x83, 0x40, 0xa0, 0x41, 0x01}, {0xd2, 0x84, 0x40, 0xa0, 0xf6, 0x41, 0x01}, {0xf6}, {0x00}, {0x80}, {0xa0}, {0x60}, {0xc2, 0x41, 0x01},
+		fill([]byte{0x30, 0x44, 0x02, 0x20}, 70), fill([]byte{0x00, 0x00}, 64), fill([]byte{0xff}, 64),
+	}
+}
+
+func TestC10_SignatureBytes(t *testing.T) {
+	begin(t, "C10", "signaturebytes")
+	n := 0
+	for _, sig := range c10CBORLookingSignatures() {
+		for _, e := range []string{"VerifyCountersign0", "Countersignature.Verify", "decoded-countersignature", "Countersign0", "Countersignature.Sign"} {
+			for _, val := range []bool{false, true} {
+				c := c10SigBytesCase{Entry: e, Sig: sig, Value: val}
+				n++
+				stats.Eval()
+				stats.NTBytes([]byte(fmt.Sprintf("%+v", c)))
+				judge(t, "c10sigbytes", c, checkC10SigBytes)
+				if n%13 == 0 {
+					stats.Sample("signature-bytes", c)
+				}
+			}
+		}
+	}
+	stats.ExhaustivePart("signatures that are well-formed CBOR items x countersignature entry point x parent form", n)
+}
